@@ -362,7 +362,7 @@ def separated(heap, tr):
     return z3.BoolVal(ok)
 
 
-def _state_unit(name, call, stack_top, check, props=("C13",)):
+def _state_unit(name, call, stack_top, check, props=("C13", "C04")):
     @unit(f"CoordinateTransformer.{name}", list(props))
     def u(ctx):
         st = State(T, {}, {}, []); x = ctx.executor()
